@@ -269,7 +269,7 @@ def run_range(case):
         except Exception:  # noqa
             good = False
     out.expect("step_attr", good, attr, float(step_real), cls)
-    out.klass = "range:%s:%s" % (kind, "n" if got == n else ("n%+d" % (got - n)))
+    out.klass = "range:%s:%s" % (kind, "n" if got == n else ("short" if got < n else "long"))
     return out
 
 
